@@ -385,12 +385,12 @@ func c15RxEvidence(w *fw.W, op plugintypes.Operator, s *c15Spec, in string, want
 		w.Count("rx_prefilter_on_evaluations", 1)
 		switch verifapi.RxStage(op, in) {
 		case verifapi.RxStageExact:
-			w.Count("rx_decided_by_exact_literal_path", 1)
+			c11CountB(w, "rx_decided_by_exact_literal_path")
 			if want {
 				w.Count("rx_exact_literal_path_matches", 1)
 			}
 		case verifapi.RxStagePrefilter, verifapi.RxStageMinLen:
-			w.Count("rx_rejected_before_the_regexp", 1)
+			c11CountB(w, "rx_rejected_before_the_regexp")
 		}
 	} else {
 		w.Count("rx_prefilter_off_evaluations", 1)
@@ -757,12 +757,16 @@ func c15Required() []string {
 		"files_with_padded_lines", "files_with_every_line_padded", "files_with_crlf", "files_without_final_newline", "files_with_line_over_64KiB", "e2e_dataset_blocks_with_styled_lines",
 		"pm_inputs_at_the_shortest_phrase_boundary", "pm_inputs_unicode_folded_phrase", "pm_padded_file_matches_as_short_as_the_shortest_phrase",
 		"rx_prefilter_on_evaluations", "rx_prefilter_off_evaluations", "rx_decided_by_exact_literal_path", "rx_exact_literal_path_matches", "rx_rejected_before_the_regexp",
-		"rx_matches_only_under_unicode_folding", "rx_matches_only_under_unicode_folding_prefilter_on")
+		"rx_matches_only_under_unicode_folding", "rx_matches_only_under_unicode_folding_prefilter_on",
+		"rx_decided_by_exact_literal_path_no_regex_multiline_build", "rx_rejected_before_the_regexp_no_regex_multiline_build")
 }
 
 type c15Params struct {
 	Rounds int `json:"rounds"`
 	Inputs int `json:"inputs"`
+	// Only restricts the schedule to the operators named (the nomline flavour repeats only what depends on
+	// the build's regex mode)
+	Only []string `json:"only,omitempty"`
 }
 
 func init() {
@@ -770,7 +774,7 @@ func init() {
 		ID: "C15", Level: "exploration",
 		Rule: "per operator (string operators with literal and %{TX.x} arguments, @eq/@ge/@gt/@le/@lt, @pm/@pmFromFile/@pmf/@pmFromDataset, @ipMatch and its file/data-set forms, @validateByteRange, @validateUrlEncoding, @validateUtf8Encoding, @rx incl. a byte-escape sub-language and an anchored / case-insensitive literal sub-population, with the prefilter off and on) an instance is built by the real factory from a generated structured argument (phrase lists 1-40 with shared prefixes, duplicates and non-ASCII/invalid UTF-8 bytes, CIDR lists v4/v6 with and without prefix length, byte ranges touching 0 and 255, patterns with up to 12 groups; data files and SecDataset blocks written in 27 styles: no/some/all lines padded with blanks and tabs, LF/CRLF/mixed, with/without/several final line ends, blank-only and comment lines, entries listed twice or in another case) and evaluated on inputs derived from the argument (phrase at start/end, near misses, the length boundary of the shortest phrase: equal, one byte shorter, one byte longer, one bit off; texts equal to the argument only under Unicode simple folding such as k/U+212A, s/U+017F and letters whose case forms differ in encoded length; range edges, %XX and UTF-8 sequences truncated at every offset) against a real transaction state; result and TX.0-9 are compared with naive definitions; about one instance in six is also run through single-rule WAFs (@op / !@op pair, or deny with optional '!'). A case (operator, argument, input) is non-trivial when it was judged and its instance produced both outcomes on its inputs; distinct by hash of (operator, argument, input).",
 		Assumptions: []string{
-			"trusted base: Go's regexp with the (?sm) prefix rx.go documents as this build's default (for @rx and its submatches), net/netip for address parsing, the hand-written definitions in internal/props/c15_naive.go",
+			"trusted base: Go's regexp with the prefix rx.go documents for the build ((?sm) by default; (?s) in the extra batches built with coraza.rule.no_regex_multiline, which repeat the @rx rounds only), net/netip for address parsing, the hand-written definitions in internal/props/c15_naive.go",
 			"not judged (evaluated for panics only, counted as ambiguous_skipped): numeric operators on text that is not a digits-only decimal integer (optional minus, leading zeros allowed) within 64 bits, zoned or IPv4-mapped addresses, @validateNid",
 			"data files and SecDataset blocks: the entry of a line is the line without its line end and without leading/trailing blanks and tabs; lines that are empty after that are ignored; a line whose first byte is '#' is a comment (indented '#' lines are not generated); in the direct form a data set is the list of strings handed to the factory",
 			"SecRxPreFilter does not change the documented predicate of @rx (C11 states this); the stage counters read through verifapi.RxStage are evidence only",
@@ -788,6 +792,14 @@ func init() {
 			for i := 0; i < n; i++ {
 				bs = append(bs, fw.Batch{Index: i, Flavour: "plain", Params: pj, TimeoutS: 3600})
 			}
+			// @rx again in the build where ^ and $ are text anchors (coraza.rule.no_regex_multiline); the naive
+			// definition follows the build (rxBuildWrap)
+			p.Only = []string{"rx", "rx-binary"}
+			p.Rounds /= 4
+			pj, _ = json.Marshal(p)
+			for i := 0; i < n/8; i++ {
+				bs = append(bs, fw.Batch{Index: n + i, Flavour: "nomline", Params: pj, TimeoutS: 3600})
+			}
 			return bs
 		},
 		Run: func(w *fw.W, b fw.Batch) {
@@ -795,8 +807,12 @@ func init() {
 			if len(b.Params) > 0 {
 				json.Unmarshal(b.Params, &p)
 			}
+			sched := c15Schedule
+			if len(p.Only) > 0 {
+				sched = p.Only
+			}
 			for i := 0; i < p.Rounds; i++ {
-				c15Round(w, c15Schedule[i%len(c15Schedule)], i, p.Inputs)
+				c15Round(w, sched[i%len(sched)], i, p.Inputs)
 			}
 		},
 		Replay: func(w *fw.W, raw json.RawMessage) {
